@@ -453,15 +453,20 @@ proof fn lemma_pow2_ge32(n: nat)
     if n < 26 { lemma_pow2_strictly_increases(n, 26); }
 }
 
+// R12b: a DOCUMENTED panic ("# Panics: if lg_config_k is not in range [4, 21]") is modelled as 'returns only if the condition holds':
+// the condition is a tagged POSTCONDITION (`*_validated`) instead of a precondition, so weakening or removing the check is noticed.
+// Body = the original statement.
+#[verifier::external_body] fn vx_documented_panic(c: bool) ensures c { assert!(c); }
+
 impl HllSketch {
     spec fn wf(&self) -> bool { 4 <= self.lg_config_k <= 21 && mode_wf(self.mode, self.lg_config_k) }
     spec fn models(&self, s: ISet<u32>) -> bool { mode_models(self.mode, self.lg_config_k, s) }
 
-    fn new ( lg_config_k : u8 , hll_type : HllType ) -> ( r : Self ) requires
-/*@C17.hll.lg_k_range*/ 4 <= lg_config_k <= 21 ensures
+    fn new ( lg_config_k : u8 , hll_type : HllType ) -> ( r : Self ) ensures
+/*@C17.hll.lg_k_range_validated*/ 4 <= lg_config_k <= 21 ,
 /*@C02.sketch_init*/ r . wf ( ) , r . models ( ISet :: < u32 > :: empty ( ) ) , r . lg_config_k == lg_config_k , mode_type ( r . mode ) == hll_type ,
 /*@C18.hll.sparse_size*/ mode_sparse_bound ( r . mode , r . lg_config_k ) , {
-assert! ( ( 4 ..= 21 ) . contains ( & lg_config_k ) ) ;
+vx_documented_panic ( ( 4 ..= 21 ) . contains ( & lg_config_k ) ) ;
 let list = List :: default ( ) ;
 Self {
 lg_config_k , mode : Mode :: List {
